@@ -4,7 +4,7 @@ from __future__ import annotations
 
 from typing import Any, Self
 
-from pydantic import ConfigDict, ValidationInfo, model_validator
+from pydantic import ConfigDict, Field, ValidationInfo, model_validator
 
 from ropt.config.utils import ImmutableBaseModel
 
@@ -58,12 +58,12 @@ class EnOptConfig(ImmutableBaseModel):
     """
 
     variables: VariablesConfig
-    objectives: ObjectiveFunctionsConfig = ObjectiveFunctionsConfig()
+    objectives: ObjectiveFunctionsConfig = Field(default_factory=ObjectiveFunctionsConfig)
     linear_constraints: LinearConstraintsConfig | None = None
     nonlinear_constraints: NonlinearConstraintsConfig | None = None
-    realizations: RealizationsConfig = RealizationsConfig()
-    optimizer: OptimizerConfig = OptimizerConfig()
-    gradient: GradientConfig = GradientConfig()
+    realizations: RealizationsConfig = Field(default_factory=RealizationsConfig)
+    optimizer: OptimizerConfig = Field(default_factory=OptimizerConfig)
+    gradient: GradientConfig = Field(default_factory=GradientConfig)
     realization_filters: tuple[RealizationFilterConfig, ...] = ()
     function_estimators: tuple[FunctionEstimatorConfig, ...] = (
         FunctionEstimatorConfig(),
